@@ -7,6 +7,13 @@ from ..core import Result, finding, norm_construct, register
 from ..model import AnalysisError, Repo
 
 ALLOWED_MODULES = {"__future__", "abc", "copy", "dataclasses", "datetime", "enum", "inspect", "math", "typing"}
+# standard-library modules that offer no way to observe the process zone (reviewed once; listed so that an ordinary refactor that
+# starts using one of them is not an analysis error). `datetime` itself is allowed: its zone-dependent *methods* are the R-TZ rule.
+ALLOWED_MODULES |= {
+    "functools", "itertools", "collections", "operator", "statistics", "numbers", "decimal", "fractions", "bisect", "heapq", "re", "json",
+    "warnings", "contextlib", "types", "string", "random", "array", "weakref", "sys", "uuid", "hashlib", "pprint", "textwrap", "logging",
+    "typing_extensions", "cmath", "struct", "io", "csv", "pathlib",
+}
 # modules through which the process zone / environment is reachable; any *use* is a finding
 ZONE_MODULES = {"time", "locale", "os", "tzlocal", "dateutil", "pytz", "zoneinfo", "calendar", "pandas", "numpy", "subprocess", "platform"}
 # attribute-call names that consult the process-local zone
